@@ -122,6 +122,33 @@ def structural_mutants(hx, ft, rng, per_encoding):
     return out
 
 
+def boundary_sources():
+    """string leaves whose multi-byte runes straddle every offset around the buffer sizes the codec uses
+    (512-byte frame pool, 4096-byte bufio window), and expressions nested deeper than any fixed-size stack"""
+    out = []
+    for ch in ("\u00e9", "\u65e5", "\U0001F600"):           # 2-, 3-, 4-byte
+        w = len(ch.encode())
+        for total in (520, 1040, 4110, 8200):
+            for shift in range(w + 1):
+                body = "a" * shift + ch * ((total - shift) // w)
+                out.append(("snippet", ('set req.http.X = "%s" "%s";' % (body, body[: 40])).encode(), "leaf-%dB-%d-shift%d" % (w, total, shift)))
+                out.append(("snippet", ('log {"%s"};' % body).encode(), "longleaf-%dB-%d-shift%d" % (w, total, shift)))
+    for depth in (15, 16, 17, 18, 24, 40, 80):
+        chain = " + ".join('"s%d"' % i for i in range(depth + 1))
+        ors = " || ".join("req.http.H%d" % i for i in range(depth + 1))
+        groups = "(" * depth + "req.http.A" + ")" * depth
+        calls = "std.tolower(" * depth + '"x"' + ")" * depth
+        ifs = "if(req.http.A, " * depth + '"z"' + ', "n")' * depth
+        for name, e in (("concat", chain), ("or", ors), ("group", groups), ("call", calls), ("ifexp", ifs)):
+            cond = e if name in ("or", "group") else 'req.http.Q == "1"'
+            val = e if name not in ("or",) else '"v"'
+            # the deep statement is followed by ordinary compound statements in the SAME encode call
+            out.append(("snippet", ('if (%s) { set req.http.X = %s; }\nset req.http.Y = "a" + req.http.B + std.tolower("C");\n'
+                                    'if (req.http.A == "x" && !req.http.B) { log "k" req.url; }\n' % (cond, val)).encode(),
+                        "deep-%s-%d" % (name, depth)))
+    return out
+
+
 def mutate(rng, hx, donors):
     b = bytearray.fromhex(hx)
     k = rng.random()
@@ -179,6 +206,7 @@ def run(ctx):
     n_gen = 6000 if thorough else 700
     sources = corpus_sources() + big_sources(rng)
     sources += [(m, src.encode(), "kind-%d" % i) for i, (m, src) in enumerate(KIND_CORPUS)]
+    sources += boundary_sources()
     for path, data in vclgen.repo_vcl_files(V.REPO):
         sources.append(("vcl", data, path))
     for i in range(n_gen):
@@ -208,6 +236,10 @@ def run(ctx):
             cases.append((label, ast, None, None, m, s))
             continue
         cases.append((label, ast, parts[1][4:], parts[2][4:], m, s))
+        if len(parts) > 3 and parts[3] == "held MISMATCH":
+            ctx.violation("bytes returned by an earlier Encodes call no longer decode to their statements after a later call (before %s)" % label,
+                          {"mode": m, "source_hex": s.hex()[:4000], "note": "the previous request's held result was re-decoded after this request's encode/decode"},
+                          {"kind": "held-result"})
     # model: encode the same ASTs
     mreq = ["enc " + c[1] for c in cases]
     mrep = V.run_batch([model], mreq, hang_s=60, mem_kb=8_000_000)
